@@ -11,10 +11,32 @@ from props.sleepgen import gen_sleep_history
 def run(ctx, model_available=True):
     rng = rng_for(ctx.seed, "C07gen")
     hs = [gen_sleep_history(rng, False) for _ in range(ctx.budget(900, 15000))]
-    return run_property(ctx, "C07", histories=hs, n_quick=0, n_thorough=0, oracle=oracle_c07,
+    res = run_property(ctx, "C07", histories=hs, n_quick=0, n_thorough=0, oracle=oracle_c07,
                         model_available=model_available,
                         rule="sleep-buffer histories (sleepgen.py): uniquely tagged set commands to sleeping/awake/unknown nodes with and without buffering, right and wrong wake signals per protocol, re-presentations, public sleeping-flag changes, other traffic",
                         assumptions=["every send of a set command carries a unique payload (ghost tag) so deliveries can be accounted per send"])
+    # the same accounting when sends land while the release is suspended in a write (C09's gate transport)
+    from props import c09
+
+    rr = rng_for(ctx.seed, "C07race")
+    sch = c09.gen_schedules(ctx)
+    nrace = 0
+    for acts in rr.sample(sch, min(len(sch), ctx.budget(250, 3000))):
+        if any(a[0] == "complete" and not a[1] for a in acts):
+            continue
+        version = rr.choice(["2.0", "2.1", "2.2"])
+        r, _ = c09.run_actions(version, acts)
+        nrace += 1
+        for sig, desc in c09.oracle(r, acts)[:1]:
+            res["failures"].append({"kind": "oracle", "sig": "C07:race-" + sig.split(":")[1],
+                                    "desc": f"protocol {version}, sends while the release is suspended in a write, schedule {acts}: {desc}",
+                                    "case": {"actions": acts, "version": version}})
+        r.close()
+        if len([f for f in res["failures"] if f["sig"].startswith("C07:race")]) >= 2:
+            break
+    res["evaluations"] += nrace
+    res["distribution"]["race_schedules"] = nrace
+    return res
 
 
 def replay(ctx, rp):
